@@ -721,7 +721,25 @@ func init() {
 				setBuf(st, p, appendValues(st, bufOf(st, p), []Value{r}, mkInt(0)))
 				return ret1(st, TupleV{mkInt(1), IfaceV{}})
 			}
-			unsupported("Builder.WriteRune of symbolic non-ASCII rune")
+			ascii := mkAnd(mkLe(mkInt(0), r), mkLt(r, mkInt(0x80)))
+			ft, mt, ff, mf := w.feasible(st, ascii)
+			var outs []Outcome
+			if ff {
+				cut := st
+				if ft {
+					cut = st.fork()
+				}
+				cut.assume(mkNot(ascii))
+				cut.model = mf
+				outs = append(outs, Outcome{st: cut, pan: &PanicV{runtime: "CUT: UTF-8 encoding of a symbolic non-ASCII rune (Builder.WriteRune)", site: "strings.Builder"}})
+			}
+			if ft {
+				st.assume(ascii)
+				st.model = mt
+				setBuf(st, p, appendValues(st, bufOf(st, p), []Value{r}, mkInt(0)))
+				outs = append(outs, Outcome{st: st, ret: TupleV{mkInt(1), IfaceV{}}})
+			}
+			return outs
 		}
 		s := string(rune(r.k))
 		setBuf(st, p, appendValues(st, bufOf(st, p), strToValues(StrV{s: s}), mkInt(0)))
@@ -759,8 +777,22 @@ func init() {
 	natives["(*runtime.Func).Name"] = func(w *Worker, st *State, args []Value, fv *FuncV, depth int) []Outcome {
 		return ret1(st, StrV{s: "func"})
 	}
-	natives["strings.IndexByte"] = nil
-	delete(natives, "strings.IndexByte")
+	natives["strconv.ParseInt"] = func(w *Worker, st *State, args []Value, fv *FuncV, depth int) []Outcome {
+		sv := args[0].(StrV)
+		if !sv.isConcrete() {
+			return []Outcome{{st: st, pan: &PanicV{runtime: "CUT: strconv.ParseInt slow path (empty or >=19 characters) on a symbolic string", site: "strconv"}}}
+		}
+		v, err := strconv.ParseInt(sv.s, int(concInt(args[1], "base")), int(concInt(args[2], "bitSize")))
+		if err != nil {
+			e := w.newError(st, StrV{s: err.Error()}, depth)
+			return []Outcome{{st: e.st, ret: TupleV{mkInt(v), e.ret}}}
+		}
+		return ret1(st, TupleV{mkInt(v), IfaceV{}})
+	}
+	ident := func(w *Worker, st *State, args []Value, fv *FuncV, depth int) []Outcome { return ret1(st, args[0]) }
+	natives["internal/stringslite.Clone"] = ident
+	natives["strings.Clone"] = ident
+	natives["strconv.cloneString"] = ident
 }
 
 var _ = strings.Contains
